@@ -52,6 +52,8 @@ type S struct {
 	// OnArrive is called by the arriving goroutine itself before it parks; OnExit when a process ends.
 	OnArrive func(*Gate)
 	OnExit   func(name string)
+	// OnPass is called when a registered process passes a gate in free mode.
+	OnPass func(*Gate)
 	// OnAnon names a library-spawned goroutine at its first gate.
 	OnAnon func(site string) string
 }
@@ -210,7 +212,12 @@ func (s *S) Arrive(kind, site string, info map[string]any) Outcome {
 		select {} // a goroutine of a stopped incarnation never continues
 	}
 	if s.free {
+		f := s.OnPass
+		name := p.name
 		s.mu.Unlock()
+		if f != nil {
+			f(&Gate{Proc: name, Kind: kind, Site: site, Info: info})
+		}
 		return Outcome{Kind: "free"}
 	}
 	s.seq++
